@@ -111,12 +111,15 @@ def all_levels(data, offs):
 
 
 def part_mut(args):
-    name, seed_bytes, lo, hi = args
+    name, seed_bytes, lo, hi = args[:4]
+    two = len(args) > 4 and args[4]
     offs = offsets_of(seed_bytes)
     viols = []
     n = acc = dis = 0
     seen = set()
-    for mname, data in list(corpus.mutations(seed_bytes))[lo:hi]:
+    import itertools as _it
+    gen = _it.islice(corpus.mutations2(seed_bytes), lo, hi) if two else list(corpus.mutations(seed_bytes))[lo:hi]
+    for mname, data in gen:
         if data in seen:
             continue
         seen.add(data)
@@ -223,6 +226,13 @@ def check(ctx):
             jobs.append(("mut", (name, data, lo, lo + 1500)))
     jobs.append(("gen", ctx.seed))
     jobs.append(("gen", ctx.seed + 1))
+    if ctx.thorough:
+        # structural 2-mutations of every seed
+        for name, data in corpus.seeds(ctx.seed):
+            st = len([p for p in corpus.structure(data)[0] if p < len(data)])
+            total = (st * (st - 1) // 2) * 15 * 15
+            for lo in range(0, total, 20000):
+                jobs.append(("mut", (name, data, lo, lo + 20000, True)))
     out = core.pmap(_run, jobs, 1)
     viols = []
     n = acc = dis = 0
